@@ -4,6 +4,7 @@ import Nervus.Driver.CapiSched
 import Nervus.Driver.Locks
 import Nervus.Driver.Handles
 import Nervus.Driver.SnapSched
+import Nervus.Driver.Backup
 open Nervus.Driver
 
 /-- stream registry: one line per stream (kept one-per-line so that merges are unions) -/
@@ -12,7 +13,8 @@ def streams : List (String × Stream) := [
   ("capi_sched", CapiSchedStream.stream),
   ("locks", LocksStream.stream),
   ("handles", HandlesStream.stream),
-  ("snapsched", SnapSchedStream.stream)
+  ("snapsched", SnapSchedStream.stream),
+  ("backup", BackupStream.stream)
 ]
 
 def main (args : List String) : IO UInt32 := do
